@@ -222,3 +222,17 @@ def diamond_program(rng, target="global"):
         ents.append(("e2_" + st[0][:2], st[0], []))
     p.entries = ents
     return p
+
+
+def many_functions_program(nh):
+    """more than 64 / 256 helper functions; binding g0 is reached only through a helper with a large arena index, and the
+    entry point first calls helpers whose indices are congruent to it modulo 64 / 256"""
+    p = Program()
+    p.globals = [("g0", "storage_rw", 0, 0), ("g1", "uniform", 0, 1)]
+    for j in range(nh):
+        p.helpers.append([("acc", 0, 0, "top")] if j == nh - 2 else [])
+    tgt = nh - 2
+    p.entries = [("e0", "compute", [("call", tgt % 64, "stmt", "top"), ("call", tgt % 256 if tgt >= 256 else tgt % 64, "let", "top"),
+                                    ("call", tgt, "stmt", "top")]),
+                 ("e1", "fragment", [("acc", 1, 0, "top")])]
+    return p
